@@ -1123,6 +1123,65 @@ def union_summary(fn):
                     forward_adjacent(sub_)
 
     forward_adjacent(body)
+
+    def split_extended_list(stmts):
+        """L = A ; if G: L = L + [x] ; for v in L: BODY(v)   ->   for v in A: BODY(v) ; if G: BODY(x)      (L used nowhere else)"""
+        for i in range(len(stmts) - 2):
+            a, b, c = stmts[i], stmts[i + 1], stmts[i + 2]
+            if not (isinstance(a, ast.Assign) and len(a.targets) == 1 and isinstance(a.targets[0], ast.Name) and isinstance(b, ast.If) and not b.orelse
+                    and len(b.body) == 1 and isinstance(c, ast.For) and not c.orelse and isinstance(c.iter, ast.Name) and isinstance(c.target, ast.Name)):
+                continue
+            L = a.targets[0].id
+            if c.iter.id != L:
+                continue
+            ext = b.body[0]
+            extra = None
+            if isinstance(ext, ast.Assign) and len(ext.targets) == 1 and unparse(ext.targets[0]) == L and isinstance(ext.value, ast.BinOp) and isinstance(ext.value.op, ast.Add) \
+                    and unparse(ext.value.left) == L and isinstance(ext.value.right, ast.List):
+                extra = ext.value.right.elts
+            elif isinstance(ext, ast.AugAssign) and isinstance(ext.op, ast.Add) and unparse(ext.target) == L and isinstance(ext.value, ast.List) and False:
+                extra = ext.value.elts   # `L += [x]` would extend A itself: not the same
+            if extra is None or any(isinstance(e_, ast.Starred) for e_ in extra):
+                continue
+            uses = [n for st in stmts for n in ast.walk(st) if isinstance(n, ast.Name) and n.id == L]
+            if len(uses) != 4 + 0 and len(uses) != 4:
+                continue
+            v = c.target.id
+            loop_a = ast.For(target=c.target, iter=copy.deepcopy(a.value), body=c.body, orelse=[])
+            tail = []
+            for e_ in extra:
+                class S(ast.NodeTransformer):
+                    def visit_Name(self, n):
+                        return copy.deepcopy(e_) if n.id == v and isinstance(n.ctx, ast.Load) else n
+                tail.extend(S().visit(copy.deepcopy(st)) for st in c.body)
+            guarded = ast.If(test=b.test, body=tail or [ast.Pass()], orelse=[])
+            for x_ in (loop_a, guarded):
+                ast.copy_location(x_, c)
+                ast.fix_missing_locations(x_)
+            stmts[i:i + 3] = [loop_a, guarded]
+            return True
+        return False
+
+    def drop_name_aliases(stmts):
+        """t = u (two plain names, t bound once, u not re-bound afterwards): t is u"""
+        for i, a in enumerate(stmts):
+            if isinstance(a, ast.Assign) and len(a.targets) == 1 and isinstance(a.targets[0], ast.Name) and isinstance(a.value, ast.Name):
+                t, u = a.targets[0].id, a.value.id
+                st_t = [n for st in stmts for n in ast.walk(st) if isinstance(n, ast.Name) and n.id == t and isinstance(n.ctx, ast.Store)]
+                st_u = [n for st in stmts[i + 1:] for n in ast.walk(st) if isinstance(n, ast.Name) and n.id == u and isinstance(n.ctx, ast.Store)]
+                if len(st_t) == 1 and not st_u and t != u:
+                    for st in stmts[i + 1:]:
+                        for n in ast.walk(st):
+                            if isinstance(n, ast.Name) and n.id == t:
+                                n.id = u
+                    del stmts[i]
+                    return True
+        return False
+
+    while drop_name_aliases(body):
+        pass
+    while split_extended_list(body):
+        pass
     # `if g: ...; return acc  else: ...; return acc`  ->  single trailing `return acc`
     def leaf_returns(stmts):
         if not stmts:
